@@ -6,6 +6,8 @@
 import PigeonVerif.Proofs.StoreLemmas
 import PigeonVerif.Proofs.Refine
 import PigeonVerif.Properties.C02
+import PigeonVerif.Proofs.SpecMono
+import PigeonVerif.Proofs.FuelMono
 
 namespace PV
 namespace RT
@@ -104,6 +106,16 @@ theorem C01_parse_is_peg (E : Env) (hp : Plain E) (fuel : Nat) (first : Rule) (r
   · unfold parse
     simp only [hr, hf]
     rw [ruleWrap_eq hp fuel _ r hf]
+
+/-- **C01 (e)** the specification is a partial FUNCTION: whatever fuel makes `Spec.eval` answer, the
+    answer is the same (`Spec.eval_mono`), so an expression has at most one result -/
+theorem C01_spec_result_unique (E : Env) (c : Spec.Ctx) (e : Expr) (env : List (String × Val)) (pt : Savepoint)
+    (w : Spec.World) (r1 r2 : Spec.Res) (h1 : Spec.Evaluates E c e env pt w r1) (h2 : Spec.Evaluates E c e env pt w r2) :
+    r1 = r2 := h1.unique h2
+
+/-- ... and so is the runtime, in every configuration (memoization, left recursion, budget) -/
+theorem C01_runtime_result_unique (E : Env) (e : Expr) (s : PState) (o1 o2 : Outcome)
+    (h1 : Parses E e s o1) (h2 : Parses E e s o2) : o1 = o2 := h1.unique h2
 
 /-- `Plain` is satisfiable (the theorem is not vacuous): any environment without memoization, budget
     and left-recursion flags -/
